@@ -721,8 +721,8 @@ pub fn line(label: &str, key: &MasterKey, store: &Store, expected: &BTreeMap<Str
 }
 
 pub fn generate(thorough: bool, rng: &mut Rng, ops: &mut Vec<String>, stats: &mut Stats) {
-    let n_repos = if thorough { 30 } else { 4 };
-    let per_repo_cap = if thorough { 400 } else { 110 };
+    let n_repos = if thorough { 20 } else { 4 };
+    let per_repo_cap = if thorough { 300 } else { 110 };
     for r in 0..n_repos {
         // the first repository of every run is the stdin-style one (packs holding only a root tree)
         let built = if r == 0 { build_stdin_pair(stats, rng.chance(1, 2)) } else { build_repo(rng, stats, r == 1) };
